@@ -1081,7 +1081,12 @@ coap_op_resource_deleted(coap_context_t *context,
   coap_binary_t *raw_packet = NULL;
   (void)user_data;
 
-  coap_op_obs_cnt_deleted(context, resource_name);
+  /* Installed when either file is configured: only touch what is */
+  if (context->obs_cnt_save_file)
+    coap_op_obs_cnt_deleted(context, resource_name);
+
+  if (!context->dyn_resource_save_file)
+    return 1;
 
   fp_orig = fopen((const char *)context->dyn_resource_save_file->s, "r");
   if (fp_orig == NULL)
